@@ -33,6 +33,7 @@ type Run struct {
 	Distinct map[string]bool  // distinct-case keys (hashes) contributed by this run
 	Desc     []string         // human description of the workload (for replay files / samples)
 	Viol     *Violation
+	Soft     *Violation // a violation that does not end the run (recorded once; becomes Viol if nothing else fails)
 	Steps    int64
 }
 
@@ -68,6 +69,26 @@ func (r *Run) Fail(class, sigDetail, format string, a ...interface{}) {
 }
 
 func (r *Run) Failed() bool { return r.Viol != nil }
+
+// SoftFail records a violation but lets the run go on, so that the rest of the run's obligations
+// are still checked (used for failures that match a narrowly classified, already known defect).
+func (r *Run) SoftFail(class, sigDetail, format string, a ...interface{}) {
+	if r.Soft != nil || r.Viol != nil {
+		return
+	}
+	sig := class
+	if sigDetail != "" {
+		sig += ":" + sigDetail
+	}
+	r.Soft = &Violation{Class: class, Sig: sig, Detail: fmt.Sprintf(format, a...)}
+}
+
+// Finish promotes a soft violation when nothing else failed.
+func (r *Run) Finish() {
+	if r.Viol == nil && r.Soft != nil {
+		r.Viol = r.Soft
+	}
+}
 
 // EventHash is the determinism fingerprint of a run.
 func (r *Run) EventHash() string {
